@@ -46,3 +46,89 @@ def times_mass(mass, v):
         return v
     k = len(v.axes)
     return nf.mul(nf.expand_dims(mass, ["k"] + [None] * (k - 1)), v)
+
+
+FACTOR_KINDS = ["ConjugateFactor", "LowRankFactor", "OneRankFactor", "LinearFactor", "ConstantFactor",
+                "GaussianMeasure", "GaussianDiagMeasure", "GaussianPDF", "GaussianDiagPDF"]
+
+
+def make_factor(I, kind, R, Dd, name="f"):
+    if kind in ("ConjugateFactor", "LowRankFactor"):
+        return build.factor(I, R, Dd, name, cls=kind)
+    if kind == "OneRankFactor":
+        return build.onerank(I, R, Dd, name)
+    if kind == "LinearFactor":
+        return build.linear_factor(I, R, Dd, name)
+    if kind == "ConstantFactor":
+        return build.constant_factor(I, R, Dd, name)
+    if kind == "GaussianMeasure":
+        return build.measure(I, R, Dd, name)
+    if kind == "GaussianDiagMeasure":
+        return build.measure(I, R, Dd, name, cls="GaussianDiagMeasure", diag=True)
+    if kind == "GaussianPDF":
+        return build.pdf(I, R, Dd, name)
+    if kind == "GaussianDiagPDF":
+        return build.pdf(I, R, Dd, name, cls="GaussianDiagPDF", args="Sigma", diag=True)
+    raise ValueError(kind)
+
+
+def obj_ln(o, x):
+    """reference evaluation  ln f_r(x_n)  from the natural parameters stored in the object."""
+    return build.factor_ln(x, o.f["Lambda"], o.f["nu"], o.f["ln_beta"])
+
+
+CACHE_FIELDS = ("Sigma", "ln_det_Sigma", "ln_det_Lambda", "lnZ", "mu")
+
+
+def invariant_diffs(o, fields=None, what=""):
+    """representation invariant of a factor/measure/density object: every non-None derived field agrees with the
+    value defined by the natural parameters (Lambda, nu).  Returns a list of (field, diffs)."""
+    out = []
+    f = o.f
+    Lam, nu = f.get("Lambda"), f.get("nu")
+    if Lam is None:
+        return out
+    want = fields or CACHE_FIELDS
+    Sig_ref, ldL = nf.inverse(Lam)
+    if "Sigma" in want and f.get("Sigma") is not None:
+        # Sigma * Lambda -> delta  (rule 3) ; equivalently Sigma == Inv(Lambda) by value number
+        prod = nf.einsum("rab,rbc->rac", f["Sigma"], Lam, what="Sigma*Lambda")
+        Dd = Lam.shape[-1]
+        eye = nf.expand_dims(nf.eye(Dd), [None])
+        d = nf.diff(prod, nf.add(nf.scale(prod, 0), eye), what=f"{what}Sigma*Lambda")
+        if d:
+            d2 = nf.diff(f["Sigma"], Sig_ref, what=f"{what}Sigma")
+            if d2:
+                out.append(("Sigma*Lambda=I", d[:4]))
+    if "ln_det_Sigma" in want and f.get("ln_det_Sigma") is not None:
+        d = nf.diff(f["ln_det_Sigma"], nf.neg(ldL), what=f"{what}ln_det_Sigma")
+        if d:
+            out.append(("ln_det_Sigma=-LnDet(Lambda)", d[:4]))
+    if "ln_det_Lambda" in want and f.get("ln_det_Lambda") is not None:
+        d = nf.diff(f["ln_det_Lambda"], ldL, what=f"{what}ln_det_Lambda")
+        if d:
+            out.append(("ln_det_Lambda=LnDet(Lambda)", d[:4]))
+    if "mu" in want and f.get("mu") is not None and nu is not None:
+        d = nf.diff(f["mu"], nf.einsum("rab,rb->ra", Sig_ref, nu), what=f"{what}mu")
+        if d:
+            out.append(("mu=Sigma nu", d[:4]))
+    if "lnZ" in want and f.get("lnZ") is not None and nu is not None:
+        Dd = Lam.shape[-1]
+        ref = nf.scale(nf.add(nf.add(nf.einsum("rd,rde,re->r", nu, Sig_ref, nu), nf.const(Dd * LOG2PI)), ldL, -1), D(1) / 2)
+        d = nf.diff(f["lnZ"], ref, what=f"{what}lnZ")
+        if d:
+            out.append(("lnZ=Gaussian log-normaliser", d[:4]))
+    return out
+
+
+def operand_write_violations(I, epoch, operands):
+    """writes to operand objects since `epoch`, other than populating an empty cache field."""
+    bad = []
+    ids = {o.oid: o for o in operands}
+    for w in I.writes[epoch:]:
+        oid, cls, field, site, old, new = w
+        if oid in ids:
+            if field in CACHE_FIELDS and old is None:
+                continue
+            bad.append(f"write to operand field {cls}.{field} at {site[0]}:{site[2]} in {site[1]}")
+    return bad
